@@ -812,7 +812,60 @@ class SampledStack(_StaticDirMixin, Suite):
         return Info(rq['origin'] is not None and (differs or denied), lb)
 
 
-SUITES = [DecisionTable(), SampledStack()]
+class RequestHistory(_StaticDirMixin, Suite):
+    """One app instance (one CORS component instance) serves a HISTORY of 2-5 requests with different origins and kinds
+    (credentialed origin first and a merely allowed one afterwards, preflights between simple requests, ...): every response
+    must satisfy the decision table AND be identical, in its Access-Control-* / Allow headers, to the response a fresh app
+    gives to the same request alone; nothing may leak from one request to the next."""
+
+    name = 'request_history'
+    budget = {'quick': 2500, 'thorough': 60000}
+
+    def strategy(self, tier):
+        cfgs = [c for c in table_configs('quick')]
+        rq = st.builds(lambda origin, kind: {'origin': origin, 'method': kind[0], 'acrm': kind[1], 'acrh': kind[2]},
+                       st.sampled_from(ORIGINS + [B_, A_, C_]), st.sampled_from(CORE_KINDS))
+        return st.builds(
+            lambda ci, cell, stack, rqs: {
+                'app': {'stack': stack, 'via': cfgs[ci][1], 'cfg': cfgs[ci][0], 'before': SURROUND[cfgs[ci][2]][0],
+                        'after': SURROUND[cfgs[ci][2]][1], 'target': cell[0], 'allow': cell[1], 'outcome': cell[2]},
+                'rqs': rqs},
+            st.integers(0, len(cfgs) - 1), st.sampled_from(TARGET_CELLS), st.sampled_from(['wsgi', 'asgi']),
+            st.lists(rq, min_size=2, max_size=5))
+
+    def run(self, case):
+        app_d = case['app']
+        cfg = app_d['cfg']
+        shared, _ = build_app(app_d, 'cors', self._dir)
+        base_app, _ = build_app(app_d, 'none', self._dir)
+        creds_seen = False
+        leak_risk = False
+        labels = set([app_d['stack'], 'target:' + app_d['target']])
+        for i, r in enumerate(case['rqs']):
+            rq = dict(r, path=PATHS[app_d['target']])
+            base = send(base_app, app_d['stack'], rq)
+            got = send(shared, app_d['stack'], rq)
+            fresh_app, _ = build_app(app_d, 'cors', self._dir)
+            fresh = send(fresh_app, app_d['stack'], rq)
+            if got.rel != fresh.rel or got.code != fresh.code or got.other != fresh.other or got.body != fresh.body:
+                raise Violation('history_dependent_response', 'request #%d %r on an app that already served %r: CORS-related headers %r '
+                                '(status %d), a fresh app answers %r (status %d); app=%r'
+                                % (i, rq, case['rqs'][:i], got.rel, got.code, fresh.rel, fresh.code, app_d))
+            before = {n: base.rel.get(n) for n in REL_NAMES}
+            succeeded = described_success(app_d, rq['method'])
+            judge({'app': app_d, 'rq': rq}, cfg, rq, base, got, before, succeeded, True)
+            cls, allowed, cred, preflight = classify(cfg, rq)
+            if creds_seen and allowed and not cred:
+                leak_risk = True
+            if cred:
+                creds_seen = True
+            labels.add('origin:' + str(cls))
+        if leak_risk:
+            labels.add('credentialed_then_plain_origin')
+        return Info(leak_risk or len(set(str(r['origin']) for r in case['rqs'])) >= 2, sorted(labels))
+
+
+SUITES = [DecisionTable(), SampledStack(), RequestHistory()]
 
 # F14 is repaired by the one-line patch proposed with this check; the predicate is only used if the
 # finding is listed as `known` instead.
